@@ -1553,12 +1553,59 @@ class Interp:
             if isinstance(a, int) and a == 2 and is_sym(b):
                 return 1 << b
             raise Unsupported("symbolic power")
+        if inplace and isinstance(a, (list, set, dict, bytearray, SymSet)):
+            # augmented assignment on a mutable container updates THE OBJECT (every alias sees it), as in CPython
+            return self.inplace_update(op, a, b)
         r = self.native(BINOPS[op], a, b)
         if r is NotImplemented:
             self.py_raise(TypeError, "unsupported operand")
         if isinstance(r, (list, dict, set, bytearray)) and not (inplace and r is a):
             self.fresh(r)
         return r
+
+    def inplace_update(self, op, a, b):
+        if not isinstance(a, SymSet):
+            self.check_mutation(a, "in-place %s" % BIN_DUNDER.get(op, "update"))
+        if isinstance(a, SymSet) or (isinstance(a, set) and isinstance(b, SymSet)):
+            if not isinstance(b, (set, frozenset, SymSet)):
+                self.py_raise(TypeError, "unsupported operand type(s) for in-place set operation")
+            if isinstance(a, set):
+                raise Unsupported("in-place update of a concrete set with a symbolic one")
+            fn = {ast.Sub: SymSet.__sub__, ast.BitOr: SymSet.__or__, ast.BitAnd: SymSet.__and__, ast.BitXor: SymSet.__xor__}.get(op)
+            if fn is None:
+                self.py_raise(TypeError, "unsupported in-place operation on a set")
+            a.mem = dict(fn(a, b).mem)
+            return a
+        if isinstance(a, list):
+            if op is ast.Add:
+                a.extend(self.iterate(b))
+                return a
+            if op is ast.Mult:
+                k = sym.ctx().choose_int(b, "sequence repetition count") if is_sym(b) else b
+                a[:] = a * k
+                return a
+            self.py_raise(TypeError, "unsupported in-place operation on a list")
+        if isinstance(a, set):
+            if not isinstance(b, (set, frozenset)):
+                self.py_raise(TypeError, "unsupported operand type(s) for in-place set operation")
+            if op is ast.Sub:
+                a.difference_update(b)
+            elif op is ast.BitOr:
+                a.update(b)
+            elif op is ast.BitAnd:
+                a.intersection_update(b)
+            elif op is ast.BitXor:
+                a.symmetric_difference_update(b)
+            else:
+                self.py_raise(TypeError, "unsupported in-place operation on a set")
+            return a
+        if isinstance(a, dict) and op is ast.BitOr:
+            a.update(b)
+            return a
+        if isinstance(a, bytearray) and op is ast.Add:
+            a.extend(b)
+            return a
+        self.py_raise(TypeError, "unsupported in-place operation")
 
     def e_Compare(self, n, env):
         left = self.ev(n.left, env)
